@@ -3,7 +3,8 @@ from .. import scriptprop
 
 ID = "C13"
 GEN = ['Chunk.lean']   # regenerated kernels this property's theorems are about (tie 4B)
-RULE = ("quick: every length n in 0..24 x every size in 1..26 (all remainders, size>n, size=n) for chunk/chunkfunc/windowed/windowedfunc, "
+RULE = ("sizes at the top of the int range (2^63-1, 2^63-2, 2^62, ...) for n in 0..5; " +
+        "quick: every length n in 0..24 x every size in 1..26 (all remainders, size>n, size=n) for chunk/chunkfunc/windowed/windowedfunc, "
         "every n for pairs/pairsfunc, element values drawn from one PRNG; plus a malformed stream (size 0 and negative) judged against the model only; "
         "one script per (n,size); non-trivial = n >= 1")
 ASSUMPTIONS = ["slices are compared by contents (sub-slice aliasing of the results is not observed)"]
@@ -25,6 +26,11 @@ def explore(core, rng, tier, seed, search=False):
                             "windowed %s %d" % (l, size), "windowedfunc %s %d" % (l, size)])
         l = lst(rng, n)
         scripts.append(["pairs " + l, "pairsfunc " + l])
+    # sizes at the top of the int range (size > n: one chunk, no window) — arithmetic on len+size must not overflow
+    for n in (0, 1, 2, 5):
+        for size in (2**63 - 1, 2**63 - 2, 2**62, 2**63 - 1 - n, 2**31, 2**32 + 1):
+            l = lst(rng, n)
+            scripts.append(["chunk %s %d" % (l, size), "chunkfunc %s %d" % (l, size), "windowed %s %d" % (l, size), "windowedfunc %s %d" % (l, size)])
     # malformed stream: size 0 / negative — outside the property; model vs implementation only
     for n in (0, 1, 3):
         l = lst(rng, n)
